@@ -29,6 +29,53 @@ pub fn exec(it: &mut Interp, toks: &[&str], out: &mut Vec<String>) -> bool {
             }
             true
         }
+        ["anc2", slot] => {
+            let Some(o) = slot.parse::<u32>().ok().and_then(|s| it.slots.get(&s)) else {
+                out.push("noslot".to_string());
+                return true;
+            };
+            let ids = tids(o);
+            let mut fails: Vec<String> = vec![];
+            let mut k1 = false;
+            let gs = |g: &hpo::term::HpoGroup| crate::interp::term_ids(g);
+            for a in ids.iter().take(14) {
+                for b in ids.iter().take(14) {
+                    let (ta, tb) = (o.hpo(*a).unwrap(), o.hpo(*b).unwrap());
+                    let c = ta.common_ancestor_ids(&tb);
+                    let ac = ta.all_common_ancestor_ids(&tb);
+                    let u = ta.union_ancestor_ids(&tb);
+                    let au = ta.all_union_ancestor_ids(&tb);
+                    out.push(format!("A2 {a} {b} c={} ac={} u={} au={}", gs(&c), gs(&ac), gs(&u), gs(&au)));
+                    // the iterator variants yield the same ids; Combined::len / is_empty agree
+                    let it_ids = |x: &hpo::term::group::Combined| -> Vec<u32> { x.iter().map(|t| t.id().as_u32()).collect() };
+                    let checks = [
+                        ("common_ancestors", ta.common_ancestors(&tb), &c),
+                        ("all_common_ancestors", ta.all_common_ancestors(&tb), &ac),
+                        ("union_ancestors", ta.union_ancestors(&tb), &u),
+                        ("all_union_ancestors", ta.all_union_ancestors(&tb), &au),
+                    ];
+                    for (nm, comb, g) in checks.iter() {
+                        let want: Vec<u32> = g.iter().map(|x| x.as_u32()).collect();
+                        if it_ids(comb) != want || comb.len() != want.len() || comb.is_empty() != want.is_empty() {
+                            fails.push(format!("{nm}({a},{b}) iterates {:?}, ids variant {:?}", it_ids(comb), want));
+                        }
+                    }
+                    // documented: the all_ union variant includes the terms themselves (known finding K1)
+                    let aus: BTreeSet<u32> = au.iter().map(|x| x.as_u32()).collect();
+                    if !aus.contains(a) || !aus.contains(b) {
+                        k1 = true;
+                    }
+                }
+            }
+            if k1 {
+                out.push("known-finding K1 all_union_ancestor_ids(a, b) does not contain a and b".to_string());
+            }
+            match fails.first() {
+                None => out.push("oracle ok".to_string()),
+                Some(f) => out.push(format!("oracle FAIL anc2: {f}")),
+            }
+            true
+        }
         ["bigarena", n, seed] => {
             // implementation-vs-oracle only: an ontology far beyond 65 535 terms (the model's
             // association list would be quadratic); every id of the id space is looked up
